@@ -138,7 +138,18 @@ pub fn eval(case: &Case, st: &mut Stats) -> Result<(), String> {
     check_generator_output(&g, &r, "update(all)")?;
     // the same input through a generator that had an earlier life (declared size, finalised, reset)
     {
-        let first = &data[..data.len().min(13 + data.len() / 97)];
+        // every fourth case: a first life that fills many block-size levels (64 KiB of noise)
+        static NOISE: std::sync::OnceLock<Vec<u8>> = std::sync::OnceLock::new();
+        let noise = NOISE.get_or_init(|| {
+            let mut v = vec![0u8; 1 << 16];
+            oracle::words::SplitMix(0xC01).fill(&mut v);
+            v
+        });
+        let busy = oracle::fingerprint(&data[..data.len().min(64)]) % 4 == 0;
+        let first: &[u8] = if busy { noise } else { &data[..data.len().min(13 + data.len() / 97)] };
+        if busy {
+            st.class("reuse_after_busy_life");
+        }
         let mut g2 = Generator::new();
         let _ = must("set_fixed_input_size", || g2.set_fixed_input_size(first.len() as u64))?;
         must("update", || {
@@ -150,6 +161,22 @@ pub fn eval(case: &Case, st: &mut Stats) -> Result<(), String> {
             g2.update(&data);
         })?;
         check_generator_output(&g2, &r, "re-used generator (after reset)")?;
+    }
+    // a declared size (equal to what is fed) and a refused second declaration in between
+    {
+        let mut g3 = Generator::new();
+        let n = data.len() as u64;
+        let r1 = must("set_fixed_input_size", || g3.set_fixed_input_size(n))?;
+        ensure_eq!(r1, Ok(()), "set_fixed_input_size({})", n);
+        let other = n / 977 + 1;
+        let r2 = must("set_fixed_input_size", || g3.set_fixed_input_size(other))?;
+        if other != n {
+            ensure_eq!(r2, Err(GeneratorError::FixedSizeMismatch), "second, different set_fixed_input_size({})", other);
+        }
+        must("update", || {
+            g3.update(&data);
+        })?;
+        check_generator_output(&g3, &r, "generator with a declared size and a refused re-declaration")?;
     }
     let hb = must("hash_buf", || ssdeep::hash_buf(&data))?;
     match hb {
